@@ -111,6 +111,7 @@ func runMutant(verif, repo string, m mutantMeta, want map[string]bool, verbose b
 			// for a must-fail mutant an undecided obligation already counts as detection
 			dischargeAll(run.obls, runtime.NumCPU(), 4*time.Second, 4*time.Second, false)
 		}
+		run.obls = append(run.obls, boundedObligations(verif, dst, p)...)
 		nObl += len(run.obls)
 		for _, o := range run.obls {
 			if !o.ok() && kf.open(p, o.Name) == nil {
